@@ -434,9 +434,10 @@ def eq_strategy(
     :param value: value to generate.
     :returns: ``hypothesis`` strategy
     """
-    # override strategy preceding this one and generate value of the same type
-    # pylint: disable=unused-argument
-    return pandas_dtype_strategy(pandera_dtype, st.just(value))
+    if strategy is None:
+        return pandas_dtype_strategy(pandera_dtype, st.just(value))
+    # keep the constraints of the strategy preceding this one
+    return strategy.filter(partial(operator.eq, value))
 
 
 def ne_strategy(
